@@ -78,7 +78,7 @@ fn one_file(out: &mut Out, rng: &mut Rng, idx: u64) {
     out.count(&format!("file_{kind}"));
     // what the header says the data length is (if it parses strictly or permissively)
     let declared: Option<u64> = catch(|| { let mut r = &head[..]; Header::read(&mut r, &{ let mut o = ParseOptions::default(); o.permissive = true; o }).ok().and_then(|h| DataLayout::from_header(&h).ok()).map(|l| l.data_len()) }).flatten();
-    let total_exact = declared.map(|d| head.len() as u64 + d);
+    let total_exact = declared.map(|d| (head.len() as u64).saturating_add(d));
     let len: u64 = match rng.below(8) {
         0 => head.len() as u64, 1 => rng.below(head.len() as u64 + 1),
         2 | 3 => total_exact.unwrap_or(head.len() as u64 + rng.below(4096)),
